@@ -31,7 +31,8 @@ def kinds_of(case):
 
 
 def replayable(case):
-    return case[0] == 1 or case[5] == 1
+    # the dispatch calls are serialised and logged in channel order, before the worker can log the start
+    return case[0] == 1
 
 
 def oracle(case, out):
@@ -83,8 +84,6 @@ def oracle(case, out):
         return "join did not return within the watchdog"
     if join == 3:
         return "join returned an error"
-    if broken and join != 2:
-        return "the workers' driver was broken (they panic) but join returned Ok"
     if join == 2 and not broken:
         return "join re-raised a panic although no worker panicked (a task's panic must stay in the task)"
     if not conc:
